@@ -118,6 +118,7 @@ var c17Queries = []c17Q{
 	{"novalue", "?e"}, {"novalue", "?=v&k="}, {"ampersands", "?&&x=1&&"}, {"qmark", "?x=1?y=2"}, {"qmark", "?next=/a/b/?z"}, {"slashes", "?x=/../&y=//a/./b"},
 	{"utf8", "?u=%C3%A9&%C3%A9=1"}, {"enc-reserved", "?k=%2F%2f%3F%23%26%3D%25"}, {"brackets", "?a[]=1&a[]=2"}, {"mixed-malformed", "?c=%zz&d=x;y&e&ok=1"},
 	{"subdelims", "?a=!$'()*,:@"}, {"long", "?long=" + strings.Repeat("abcdefghij", 200)}, {"case", "?x=%2f&X=%2F&x=%2F"},
+	{"rule-keys", "?added=0&k=mine&version=9&path=zz&fixed=0"},
 }
 
 var c17Methods = []string{"GET", "GET", "GET", "HEAD", "POST", "POST", "PUT", "PATCH", "DELETE", "OPTIONS"}
@@ -327,7 +328,7 @@ func c17RandResp(r *rand.Rand) int {
 
 // c17CoreCases: routing enumeration — every path over segments {a,b} up to depth 4, with and without trailing slash,
 // plus variants with one separator written %2F, the set's own bases, and each base with each query class.
-func c17CoreCases(s *c17Set) []*c17Case {
+func c17CoreCases(s *c17Set, thorough bool) []*c17Case {
 	var paths []string
 	paths = append(paths, "/")
 	var rec func(prefix string, depth int)
@@ -358,7 +359,7 @@ func c17CoreCases(s *c17Set) []*c17Case {
 		for _, t := range []string{"", "x", "a%2Fb", "a%20b+c;d", "a!b'(c)*", "q%3Fmark.txt", "plain.txt", "a%20b.txt"} {
 			p := c17PathFrom(b, t)
 			for qi, q := range c17Queries {
-				if t != "" && qi%4 != len(t)%4 {
+				if t != "" && ((thorough && qi%4 != len(t)%4) || (!thorough && qi%8 != len(t)%8)) {
 					continue
 				}
 				m := "GET"
@@ -398,12 +399,31 @@ func c17RandomCase(r *rand.Rand, s *c17Set, thorough bool) *c17Case {
 	return c
 }
 
-func c17Finalize(cs []*c17Case, prefix string) {
+func c17Finalize(cs []*c17Case, prefix string, s *c17Set) {
 	for i, c := range cs {
 		c.ID = fmt.Sprintf("%s-%d", prefix, i)
 		c.PathClass = c17PathClass(c.Path)
 		if c.QClass == "" {
 			c.QClass = "none"
+		}
+		// Handlers that never read the request body (static, file, redirects, 404) make net/http close the connection
+		// under a large unread upload, which can cut the response short on the client side — plain HTTP behaviour, not
+		// relaying. Large uploads are therefore only sent where the reference expects an HTTP upstream.
+		if c.BodyLen > 8<<10 {
+			toHTTP := false
+			for _, d := range c17Decide(s.Ups, s.Raw, c.Path) {
+				if d.Kind == "upstream" && d.Up.Kind == "http" {
+					toHTTP = true
+				}
+			}
+			if !toHTTP {
+				c.BodyLen = 1 + c.BodyLen%(8<<10)
+			}
+		}
+		if strings.Contains(c.Path, "big.bin") && c.BodyKind != "none" {
+			// an unread body + "Connection: close" + a 128 KiB answer: net/http closes 500 ms after its FIN, a client that is
+			// slower than that under load sees a reset and a short body. Not sent.
+			c.BodyKind, c.BodyLen, c.Chunked = "none", 0, false
 		}
 	}
 }
